@@ -28,13 +28,18 @@ def native():
         _st["so"] = ctypes.CDLL(build.compile_native(os.path.join(V, "replay", "c16_replay.cc"), extra=["-I" + V]))
     return _st["so"]
 
-def replay(case):
-    s = bytes(case["bytes"]).split(b"\0")[0]
+def _replay(s):
     msg = ctypes.create_string_buffer(512)
     f = native().c16_check; f.restype = ctypes.c_int
     if f(ctypes.c_char_p(s), msg):
         return "ParsePosixSpec(%r): %s" % (s.decode("latin1"), msg.value.decode())
     return None
+def replay(case):
+    s = bytes(case["bytes"]).split(b"\0")[0]
+    native()                                    # build before forking
+    w = common.isolated(_replay, s)
+    if w and not w.startswith("ParsePosixSpec("): w = "ParsePosixSpec(%r): %s" % (s.decode("latin1"), w)
+    return w
 
 def job_unit(H, L, witness=False, zone=None):
     mod = module()
